@@ -9,6 +9,7 @@ TARGETS = [
     ("epochdrv3", ["epochdrv.cpp"], {"sessions": 3}),
     ("epochdrv4", ["epochdrv.cpp"], {"sessions": 4}),
     ("lifedrv", ["lifedrv.cpp"], {"sessions": 4, "epoch_time": 2}),
+    ("stepdrv", ["stepdrv.cpp"], {"sessions": 16}),
     ("orddrv", ["orddrv.cpp"], {"sessions": 16}),
     ("mapdrv", ["mapdrv.cpp"], {"sessions": 16, "epoch_time": 5}),
 ]
